@@ -95,7 +95,43 @@ impl PanicInfo {
     }
 }
 
+/// watchdog for calls into the library that do not return: deadline in ms since `START` (0 = none)
+static DEADLINE_MS: std::sync::atomic::AtomicU64 = std::sync::atomic::AtomicU64::new(0);
+static START: std::sync::OnceLock<std::time::Instant> = std::sync::OnceLock::new();
+static LABEL: Mutex<String> = Mutex::new(String::new());
+pub const HANG_SECS: u64 = 20;
+
+fn now_ms() -> u64 {
+    START.get_or_init(std::time::Instant::now).elapsed().as_millis() as u64 + 1
+}
+
+/// what the harness is doing (printed when the watchdog fires)
+pub fn set_label(l: String) {
+    *LABEL.lock().unwrap() = l;
+}
+
+pub fn start_watchdog() {
+    now_ms();
+    std::thread::spawn(|| loop {
+        std::thread::sleep(std::time::Duration::from_millis(200));
+        let d = DEADLINE_MS.load(std::sync::atomic::Ordering::SeqCst);
+        if d != 0 && now_ms() > d {
+            eprintln!("HANG: a call into the library did not return within {} s; {}", HANG_SECS, LABEL.lock().map(|l| l.clone()).unwrap_or_default());
+            std::process::exit(3);
+        }
+    });
+}
+
+/// `catch` under the watchdog: the process exits with status 3 when the call does not return within `HANG_SECS`
 pub fn catch<T>(f: impl FnOnce() -> T) -> Result<T, PanicInfo> {
+    DEADLINE_MS.store(now_ms() + HANG_SECS * 1000, std::sync::atomic::Ordering::SeqCst);
+    let r = catch_nowd(f);
+    DEADLINE_MS.store(0, std::sync::atomic::Ordering::SeqCst);
+    r
+}
+
+/// `catch` without the watchdog (for callers that run their own time-out)
+pub fn catch_nowd<T>(f: impl FnOnce() -> T) -> Result<T, PanicInfo> {
     LAST.with(|l| *l.borrow_mut() = None);
     IN_CATCH.with(|c| *c.borrow_mut() = true);
     let r = panic::catch_unwind(AssertUnwindSafe(f));
